@@ -174,6 +174,7 @@ impl GapWin {
 
 #[derive(Default)]
 struct St {
+    slot_busy: [bool; 17],
     loop_gaps: GapWin,
     client_gaps: [GapWin; MAXC + 1],
     events: Vec<Rec>,
@@ -397,10 +398,16 @@ impl Ctx {
 
     // ---- the handlers given to the app ----------------------------------------------------------
     fn handler(self: &Arc<Ctx>, kind: u8, stream: &AsyncStream, msg: Option<&Message>) {
-        let w: i64 = thread::current().name().and_then(|n| n.parse::<i64>().ok()).map(|x| x + 1).unwrap_or(0);
+        // "worker" = one of 16 slots for handlers running at the same time, taken at the start of the handler body
+        // and given back at its end (how the pool names or reuses its threads is not the property's business)
         let port = stream.peer_addr().port();
+        let w: i64;
         let (sc_m, c, key) = {
             let mut g = self.lock();
+            w = (1..=16).find(|x| !g.slot_busy[*x as usize]).unwrap_or(0);
+            if w > 0 {
+                g.slot_busy[w as usize] = true;
+            }
             let c = Ctx::client_of(&g, port as i64);
             let (sc, m) = match msg {
                 Some(mm) => g.up_tags.get(&tag(mm.bytes())).copied().unwrap_or((0, 0)),
@@ -468,6 +475,9 @@ impl Ctx {
         r.w = w;
         g.events.push(r);
         g.n_done += 1;
+        if w > 0 {
+            g.slot_busy[w as usize] = false;
+        }
         g.finished.insert(key);
         drop(g);
         self.cv.notify_all();
@@ -1147,8 +1157,10 @@ fn random_run(run: i64, rng: &mut Rng, maxclients: usize, kind: u8) -> RunOut {
         nclients = 3.min(maxclients.max(2));
         workers = *rng.pick(&[1usize, 2]);
         poll = Some(Duration::from_millis(rng.range(1, 5) as u64));
-        hb_on = !dead_rst;
-        heartbeat = if dead_rst { None } else { Some((Duration::from_millis(60), Duration::from_millis(180))) };
+        // with the heartbeat on in both variants, as in the property's quantifier ("abrupt disconnect with
+        // heartbeat on"): a tree that leaves all dead-peer detection to the heartbeat is fine as well
+        hb_on = true;
+        heartbeat = Some((Duration::from_millis(60), Duration::from_millis(180)));
         internal = rng.chance(1, 3);
         big = false;
     }
